@@ -1,4 +1,6 @@
 import PhpVerif.Lemmas.NewLines
+import PhpVerif.Lemmas.ScanBlocks
+import PhpVerif.Gen.ScanBlocks
 /-
 C04 — Tokens carry exact source text, offsets and lines, and tile the source.
 
@@ -9,6 +11,11 @@ Scanner contract used (M-SCAN, validated by the same run): the generated DFA exe
 at every offset it reads that holds a CR or LF, it reads offsets without skipping (re-reading
 after backtracking is allowed), and consecutive tokens / free-floating tokens satisfy
 ts_next = te_prev.
+
+Action blocks (M-SCANBLOCKS, tie T-gen): gofacts enumerates every path through every action
+block of the generated scanner.go (`Gen.scanBlocks`); `scan_paths_ok` is the kernel-checked
+obligation on that table, `value_is_position` lifts it to every Lex call: the Position taken by
+setTokenPosition is the slice the epilogue takes the Value from.
 -/
 namespace PhpVerif.C04
 open PhpVerif.NL
@@ -102,5 +109,40 @@ example : NoSkip 0 [0, 1, 2, 3, 2, 3, 4, 5, 6] ∧ reach 0 [0, 1, 2, 3, 2, 3, 4,
 example : scan exSrc [0, 1, 2, 3, 2, 3, 4, 5, 6] = [3, 5, 7] := by decide
 example : lineOf exSrc 0 = 1 ∧ lineOf exSrc 2 = 1 ∧ lineOf exSrc 3 = 2 ∧ lineOf exSrc 5 = 3 := by decide
 example : Chained 0 [(0, 1), (1, 3), (3, 7)] exSrc.length := by simp [Chained, exSrc]
+
+/-- OBLIGATION (kernel-evaluated on the regenerated table, every path of every action block):
+    see `Scan.pathOK`; plus: Lex assigns `tkn.Value` once, from `lex.data[lex.ts:lex.te]`, and
+    `tkn.ID` once, from `tok`; no position / free-floating / unget call sits outside the blocks. -/
+def scanPathsOK : Bool :=
+  Gen.scanBlocks.all (fun b => Scan.pathOK false 0 b.2)
+  && Gen.lexValueAssigns == (1, 1) && Gen.lexIdAssigns == (1, 1) && Gen.lexCallsOutsideBlocks == 0
+
+theorem scan_paths_ok : scanPathsOK = true := by decide +kernel
+
+def tablePath (c : List Nat) : Bool := Gen.scanBlocks.any (fun b => b.2 == c)
+
+/-- every Lex call whose action-block paths come from the table (ts and te moved arbitrarily by
+    the DFA between blocks): when it returns, the token's position — if one was taken — is exactly
+    (ts, te), the slice its Value is then taken from; same for each free-floating token. -/
+theorem value_is_position (blocks : List (Nat × Nat × List Scan.BOp)) (ts te : Nat)
+    (h : ∀ b ∈ blocks, tablePath (b.2.2.map Scan.BOp.code) = true) :
+    let s := Scan.execRun blocks { ts := ts, te := te }
+    Scan.AllFF s ∧ (s.pos = none ∨ s.pos = some (s.ts, s.te)) := by
+  apply Scan.run_sound tablePath
+  · intro c hc
+    simp only [tablePath, List.any_eq_true, beq_iff_eq] at hc
+    obtain ⟨b, hb, rfl⟩ := hc
+    have h0 := scan_paths_ok
+    simp only [scanPathsOK, Bool.and_eq_true, List.all_eq_true] at h0
+    exact h0.1.1.1 b hb
+  · exact h
+  · rfl
+  · intro f hf; simp at hf
+
+/- non-vacuity: `{$` in a string: te moved by ragel, one byte given back, position, out -/
+example : tablePath ([Scan.BOp.setTe 7, .setTe 6, .setPos, .out].map Scan.BOp.code) = true := by decide +kernel
+example : (Scan.execRun [(5, 5, [.setTe 9, .ff]), (9, 9, [Scan.BOp.setTe 11, .setTe 10, .setPos, .out])] { ts := 0, te := 0 }).pos = some (9, 10) := by decide
+/- the order `setTokenPosition; ungetCnt` is rejected -/
+example : Scan.pathOK false 0 [1, 2, 1, 4] = false := by decide
 
 end PhpVerif.C04
